@@ -27,7 +27,7 @@ RULE = (
     "sorted module names; every corpus file that loads (load_one and load_many) against its module's guaranteed list; "
     "for every dump function and every required attribute: the attribute set to None on an otherwise loadable object "
     "must raise PrepareDumpError with no open() call and an untouched pre-existing file. "
-    "rdr:<fmt> (tie of the 'guaranteed => set' theorems for xyz, sdf, mol2, pdb, cube, gromacs, poscar, chgcar, locpot): corpus and generated "
+    "rdr:<fmt> (tie of the 'guaranteed => set' theorems for xyz, sdf, mol2, pdb, cube, gromacs, poscar, chgcar, locpot, crd = module charmm): corpus and generated "
     "files of these formats x line truncations x seeded mutations (as C07, smaller budget): real formats.<fmt>.load_one "
     "+ IOData(**result) against the Lean reader, compared: outcome class, array shapes, the keys of the result "
     "dictionary whose value is not None, the constructor's verdict, the attributes that are not None on the "
@@ -37,7 +37,7 @@ TRUSTED = [
     "registry extraction: FORMAT_MODULES/INPUT_MODULES of the imported iodata.api, PATTERNS and hasattr on the module "
     "objects, the lists attached by the document_* decorators, inspect.signature(IOData.__init__), "
     "iodata.__main__.DESCRIPTION",
-    "the ast walk harness/vh/props/_c17readers.py (formats/{xyz,sdf,mol2,pdb,cube,gromacs,poscar,chgcar,locpot}.py -> Gen/ReaderKeys.lean: "
+    "the ast walk harness/vh/props/_c17readers.py (formats/{xyz,sdf,mol2,pdb,cube,gromacs,poscar,chgcar,locpot,charmm}.py -> Gen/ReaderKeys.lean: "
     "keys of every dictionary load_one returns / keys stored on some paths only; load_many yields unmodified "
     "load_one(lit) dictionaries; attrs defaults of IOData; a load_one that takes its dictionary from a module-level "
     "helper, `result = _load_vasp_grid(lit)`, also one imported from a sibling module, is followed into the helper)",
@@ -48,15 +48,15 @@ ASSUMPTIONS = [
     "os.path.basename on POSIX = text after the last '/'",
     "hasattr(module, attrname) is modelled for the four operation names (and one absent name) only",
     "dict iteration order of FORMAT_MODULES = insertion order = order of pkgutil.iter_modules",
-    "'guaranteed => set' is a theorem for the nine formats with a Lean reader (xyz, sdf, mol2, pdb, cube, gromacs, "
-    "poscar, chgcar, locpot; "
+    "'guaranteed => set' is a theorem for the ten formats with a Lean reader (xyz, sdf, mol2, pdb, cube, gromacs, "
+    "poscar, chgcar, locpot, charmm; "
     "load_one, and load_many through the generated fact that every frame is an unmodified load_one(lit) dictionary); "
     "the reader models are hand transcriptions tied to the real readers by the rdr:<fmt> streams (character domain and "
     "allocation limit as stated for C07) and by the generated result-key skeletons; 'set' = the name is a key of the "
     "result dictionary with a value that is not None, hence not None on IOData(**result) (constructor model: no "
     "converter/validator produces None; atcharges/atffparams/extra default to a dict; atcorenums is derived from "
     "atnums); sub-keys of dictionary-valued attributes are not part of any declaration and are not covered",
-    "NOT PROVED for the other 16 format modules: 'guaranteed => set' is direct search (corpus files, files generated "
+    "NOT PROVED for the other 15 format modules: 'guaranteed => set' is direct search (corpus files, files generated "
     "from them, mutated corpus files that still load)",
     "load_many of the modelled modules that have one (xyz, sdf, mol2, pdb, gromacs): that the frames handed to IOData(**frame) by api.load_many are the generator's "
     "dictionaries is the flow theorem of C07; the loop around load_one (blank-line skipping, lit.back) is not modelled "
